@@ -214,7 +214,8 @@ type qsim struct {
 	bif        int64
 	nOut       int // "outstanding": ack-eliciting, not an MTU probe
 	nTracked   int
-	nTrackedBeforeEvent int // packets tracked when the most recent ACK / loss-timer processing began
+	nTrackedBeforeEvent int // packets tracked when the processing that led to the latest OnCongestionEventEx began
+	trackedPre          int
 	largestAck int64
 	largestAckSent int64
 	lossTime   int64
@@ -619,6 +620,7 @@ func (s *qsim) detectLost() {
 }
 
 func (s *qsim) eventEx(prior int64, acked []congestion.AckedPacketInfo, lost []congestion.LostPacketInfo) {
+	s.nTrackedBeforeEvent = s.trackedPre
 	s.cc.OnCongestionEventEx(congestion.ByteCount(prior), s.mt(s.now), acked, lost)
 	s.evSinceAsk++
 	s.hooks.onEventEx(s.now, len(acked), len(lost))
@@ -647,7 +649,7 @@ func (s *qsim) receivedAck(upto int, ackDelay int64) {
 		return
 	}
 	prior := s.bif
-	s.nTrackedBeforeEvent = s.nTracked
+	s.trackedPre = s.nTracked
 	pk := make([]*spkt, len(newly))
 	for i, pn := range newly {
 		pk[i] = s.get(pn)
@@ -717,7 +719,7 @@ func (s *qsim) setAlarm() {
 func (s *qsim) onLossDetectionTimeout() {
 	defer s.setAlarm()
 	prior := s.bif
-	s.nTrackedBeforeEvent = s.nTracked
+	s.trackedPre = s.nTracked
 	if s.lossTime != 0 {
 		s.detectLost()
 		s.dbg("loss timer: %d lost", len(s.lostInfo))
@@ -917,6 +919,8 @@ type c12 struct {
 	markAt     int64
 	markBytes  int64
 	haveMark   bool
+	maxReported int64 // largest packet number that appeared in an acked or lost list
+	bulkSince  int64
 	seenModes  int
 }
 
@@ -945,8 +949,14 @@ func (o *c12) afterCall(what string) {
 	// that acknowledges packet n and declares higher-numbered packets lost leaves those in the sampler until the
 	// next event; they were in flight a moment ago, so the bookkeeping is still proportional to the flight).
 	ref := max(s.nTracked, s.nTrackedBeforeEvent)
+	// ... plus the packet numbers above the largest one ever reported to the controller whose fate it has not been
+	// told: packets that QueueProbePacket dropped on PTO (quic-go reports them neither acked nor lost), skipped
+	// numbers, ACK-only packets the peer has acknowledged. No controller can discard what it was not told about.
+	if untold := int(s.nextPN-1-o.maxReported) - s.nTracked; untold > 0 {
+		ref += untold
+	}
 	if slots := b.sampler.connectionStateMap.EntrySlotsUsed(); !midEvent && slots > c12SlotsA*ref+c12SlotsB {
-		o.x.Violate("sampler-unbounded", "after %s: bandwidth sampler keeps %d packet slots (%d present) while QUIC tracks %d packets (%d before the latest event; %d bytes in flight); bound is %d x tracked + %d [sampler first=%d last=%d; QUIC first tracked=%d next pn=%d largest acked=%d; last event: %d acked, %d lost, last lost pn %d]", what, slots, b.sampler.connectionStateMap.NumberOfPresentEntries(), s.nTracked, s.nTrackedBeforeEvent, s.bif, c12SlotsA, c12SlotsB, b.sampler.connectionStateMap.FirstPacket(), b.sampler.connectionStateMap.LastPacket(), s.first, s.nextPN, s.largestAck, len(s.ackedInfo), len(s.lostInfo), lastLostPN(s.lostInfo))
+		o.x.Violate("sampler-unbounded", "after %s: bandwidth sampler keeps %d packet slots (%d present) while QUIC tracks %d packets (%d before the latest event; %d bytes in flight); bound is %d x (tracked + numbers of untold fate) + %d [sampler first=%d last=%d; QUIC first tracked=%d next pn=%d largest acked=%d; last event: %d acked, %d lost, last lost pn %d]", what, slots, b.sampler.connectionStateMap.NumberOfPresentEntries(), s.nTracked, s.nTrackedBeforeEvent, s.bif, c12SlotsA, c12SlotsB, b.sampler.connectionStateMap.FirstPacket(), b.sampler.connectionStateMap.LastPacket(), s.first, s.nextPN, s.largestAck, len(s.ackedInfo), len(s.lostInfo), lastLostPN(s.lostInfo))
 	}
 	if n := b.sampler.a0Candidates.Len(); n > c12SlotsA*o.peakTrack+c12SlotsB {
 		o.x.Violate("sampler-candidates-unbounded", "after %s: bandwidth sampler keeps %d ack-point candidates; the QUIC sender never tracked more than %d packets", what, n, o.peakTrack)
@@ -983,6 +993,12 @@ func (o *c12) onSent(pn, size int64, gated bool) {
 	}
 }
 func (o *c12) onEventEx(t int64, nA, nL int) {
+	if n := len(o.s.ackedInfo); nA > 0 && n > 0 {
+		o.maxReported = max(o.maxReported, int64(o.s.ackedInfo[n-1].PacketNumber))
+	}
+	if n := len(o.s.lostInfo); nL > 0 && n > 0 {
+		o.maxReported = max(o.maxReported, int64(o.s.lostInfo[n-1].PacketNumber))
+	}
 	if nA == 0 {
 		o.x.Probe("loss-only-event")
 	} else if nL == 0 {
@@ -1087,10 +1103,10 @@ func genC12(r *hysim.Rand, tier string) *hysim.Script {
 		sc.Cfg["live"] = 1
 		sc.Cfg["max_pkts"] = int64(budget * 6)
 		P := int64(budget * 2)
-		capB := r.LogUniform(30000, 20_000_000)
-		T := P * 1280 * 1_000_000 / capB // us
-		owd := r.LogUniform(100, max(min(150_000, T/120), 100))
-		sc.Ops = append(sc.Ops, hysim.Op{K: "path", A: []int64{capB, owd, 1 << 40, 0, 0, 1, 0, r.Pick64(0, 0, 1000), r.Pick64(2, 2, 1, 10)}})
+		capB := r.LogUniform(30000, P*1280*100/45) // the run lasts at least 0.45 s
+		T := P * 1280 * 1_000_000 / capB           // us
+		owd := r.LogUniform(100, max(min(150_000, T/240), 100))
+		sc.Ops = append(sc.Ops, hysim.Op{K: "path", A: []int64{capB, owd, 1 << 40, 0, 0, 1, 0, r.Pick64(0, 0, 1000), r.Pick64(2, 2, 1)}})
 		sc.Ops = append(sc.Ops, hysim.Op{K: "app", A: []int64{P * 1280 * 2, 0}})
 		sc.Ops = append(sc.Ops, hysim.Op{K: "run", A: []int64{T / 4}})
 		if r.Chance(1, 2) {
@@ -1192,7 +1208,7 @@ func execC12(x *hysim.Run) {
 	s.cc = b
 	s.setPath(hysim.Op{A: []int64{2_000_000, 10000, 1 << 20, 0, 0, 1, 0, 0, 2}})
 	s.newSkip()
-	o := &c12{x: x, s: s, b: b, ctl: seed, lastDg: b.maxDatagramSize}
+	o := &c12{x: x, s: s, b: b, ctl: seed, lastDg: b.maxDatagramSize, maxReported: -1}
 	s.hooks = o
 	t0 := s.now
 	synced := s.now
@@ -1217,6 +1233,9 @@ func execC12(x *hysim.Run) {
 			appBytes += n
 			s.sizeMode = clamp(op.Arg(1), 0, 3)
 			s.sched = true
+			if o.bulkSince == 0 {
+				o.bulkSince = s.now
+			}
 			x.Ev("op%d app +%d bytes mode=%d", i, n, s.sizeMode)
 		case "run":
 			d := clamp(op.Arg(0), 1, 100_000_000_000) * 1000
@@ -1242,6 +1261,14 @@ func execC12(x *hysim.Run) {
 			if !o.haveMark || !live || s.now <= o.markAt || s.exhausted {
 				break
 			}
+			// preconditions of the liveness stratum (they also keep minimised scripts meaningful): loss-free path,
+			// queue that never overflows, a warm-up and a measuring interval of at least 30 round trips each
+			warm := 30*(s.p.owdF+s.p.owdR) + 4*int64(rtt.maxAckDelay)
+			if s.p.lossPm != 0 || s.p.burstPm != 0 || s.p.ackLossPm != 0 || s.p.queue < 1<<39 || s.p.ackEvery > 2 || s.blackoutUntil != 0 || s.lateMaxNs != 0 ||
+				s.now-o.markAt < warm || o.markAt-t0 < warm || o.bulkSince == 0 || o.markAt-o.bulkSince < warm {
+				x.Probe("liveness-preconditions-not-met")
+				break
+			}
 			rate := float64(s.delivered-o.markBytes) / (float64(s.now-o.markAt) / 1e9)
 			x.Ev("op%d judge: delivered %.0f B/s over the second half, capacity %d B/s, mode=%s cwnd=%d est=%d B/s srtt=%v minrtt=%v", i, rate, s.p.capBps, c12ModeNames[b.mode], b.GetCongestionWindow(), b.bandwidthEstimate()/8, rtt.smoothed, b.minRtt)
 			x.Probe("liveness-judged")
@@ -1249,6 +1276,7 @@ func execC12(x *hysim.Run) {
 				x.Probe("liveness-ran-out-of-data")
 				break
 			}
+			x.Probe(fmt.Sprintf("liveness-delivered-%d0%%-of-capacity", min(int(10*rate/float64(s.p.capBps)), 10)))
 			if rate < c12LiveFraction*float64(s.p.capBps) {
 				x.Violate("far-below-capacity", "loss-free path of %d B/s, RTT %v, profile %s: delivered %.0f B/s (%.0f%%) over the second half of the run (%.3f s); mode=%s cwnd=%d estimate=%d B/s pacer=%d B/s", s.p.capBps, time.Duration(s.p.owdF+s.p.owdR), profile, rate, 100*rate/float64(s.p.capBps), float64(s.now-o.markAt)/1e9, c12ModeNames[b.mode], b.GetCongestionWindow(), b.bandwidthEstimate()/8, b.bandwidthForPacer())
 			}
